@@ -7,7 +7,7 @@ KIND_PROP = {
     'unsound_eq': 'C01', 'slot_dropped': 'C01', 'sym_extra': 'C01', 'class_merged': 'C01',
     'missing_eq': 'C02', 'slot_kept': 'C02', 'sym_missing': 'C02', 'class_split': 'C02',
     'panic': 'C08', 'check': 'C08', 'consistency': 'C08', 'not_idempotent': 'C08', 'foreign_slot': 'C08',
-    'readd_alloc': 'C09', 'readd_neq': 'C09', 'lookup_none': 'C09', 'lookup_neq': 'C09', 'handle_slots': 'C09',
+    'readd_alloc': 'C09', 'readd_neq': 'C09', 'lookup_none': 'C09', 'lookup_neq': 'C09', 'handle_slots': 'C09', 'ret_slots': 'C09', 'new_handle_slots': 'C09',
     'eq_lost': 'C13', 'slots_grew': 'C13', 'progress_direction': 'C13',
     'data_wrong': 'C14', 'data_not_fixpoint': 'C14',
     'count_mismatch': 'C10',
@@ -97,7 +97,7 @@ def judge_record(tmpl, rec):
         hts = [O.apply_pattern(t, pat) for t in handle_terms(tmpl, k)]
         if len(hts) != len(st['canon']):
             out.append(('panic', k, 'record has %d handles, template has %d' % (len(st['canon']), len(hts)))); break
-        n = len(hts)
+        n = len(hts); prev_n = len(handle_terms(tmpl, k - 1)) if k >= 1 else 0
         known = [st['canon'][i] is not None and O.canon(hts[i]) in C.parent for i in range(n)]
         for i in range(n):
             if st['canon'][i] is None and O.canon(hts[i]) in C.parent: out.append(('probe_missing', k, [i, list(map(str, hts[i]))]))
@@ -121,6 +121,8 @@ def judge_record(tmpl, rec):
             if not c['idem']: out.append(('not_idempotent', k, i))
             fn = sorted(str(_first_name_of_block(pat, b)) for b in O.free_names(hts[i]))
             if not set(c['hvals']) <= set(fn): out.append(('handle_slots', k, [i, c['hvals'], fn]))
+            if i >= prev_n and tmpl.ops[k - 1][0] == 'add' and k >= 1 and sorted(c['hvals']) != nr:      # handle returned by this very step
+                out.append(('new_handle_slots', k, [i, c['hvals'], nr]))
             g = st['classes'].get(str(c['id']), {}).get('gcount')
             want_g = len(C.symmetries(hts[i]))
             if g is not None and g > want_g: out.append(('sym_extra', k, [i, g, want_g]))
@@ -204,6 +206,12 @@ def judge_record(tmpl, rec):
             if ra.get('eq_old') is False: out.append(('readd_neq', k, None))
             if not ra['lookup_some']: out.append(('lookup_none', k, None))
             if ra.get('lookup_eq_add') is False: out.append(('lookup_neq', k, None))
+            # the returned invocation itself (not its canonical form): free slots minus those proven redundant at this point
+            rt = O.apply_pattern(tuple_term(tmpl.ops[k - 1][1]), pat)
+            if O.canon(rt) in C.parent:
+                want = sorted(str(_first_name_of_block(pat, b)) for b in C.nonredundant(rt))
+                for kk in ('ret_vals', 'lk_vals'):
+                    if ra.get(kk) is not None and sorted(ra[kk]) != want: out.append(('ret_slots', k, [kk, ra[kk], want]))
         # analysis data
         if 'data' in next(iter(st['classes'].values()), {}):
             want_all = O.min_costs(C, 'AstSize' if tmpl.analysis == 'MinSize' else 'Depth')
